@@ -164,8 +164,11 @@ func (vm *VM) Processor_execute(psc *procbuilder.SimConfig, instruct <-chan int,
 		case 0:
 			resp <- procId
 		case 1:
+			verifYield("worker-before-step", procId)
 			result, err := vm.Processors[procId].Step(psc)
+			verifYield("worker-after-step", procId)
 			resp <- procId
+			verifYield("worker-after-resp", procId)
 			if err == nil {
 				resultChan <- result
 			} else {
@@ -471,6 +474,7 @@ func (vm *VM) Step(sc *SimConfig) (string, error) {
 	// Order the step to processors
 	for i := 0; i < len(vm.Processors); i++ {
 		vm.send_chans[i] <- 1
+		verifYield("tick-after-token", i)
 		vm.wait_proc = vm.wait_proc - 1
 	}
 
